@@ -10,10 +10,21 @@ HTTPB = ('H', 'N')
 
 
 def make_sim(kind, **kw):
-    if kind == 'T':
-        from vf.simt import SimT
+    import os
+    if kind == 'T' and (os.environ.get('VERIF_T_AS_W') or
+                        kw.pop('real_ws_driver', False)):
+        kind = 'W'      # (survey switch / the caller's choice)
+    kw.pop('real_ws_driver', None)
+    if kind in ('T', 'W'):
         kw.pop('body_chunks', None)
         kw.pop('async_handlers_coro', None)
+        if kind == 'W':
+            # the threaded server with the real simple_websocket driver
+            from vf.simw import SimW
+            if CURRENT['rec'] is not None:
+                CURRENT['rec'].count('engine_simple_websocket')
+            return SimW(**kw)
+        from vf.simt import SimT
         return SimT(**kw)
     from vf.sima import SimA
     kw.pop('policy', None)
@@ -24,7 +35,6 @@ def make_sim(kind, **kw):
     kw.pop('ws_close_mode', None)
     kw.pop('ws_read_timeout', None)
     kw.pop('validate', None)
-    import os
     if kind == 'H' and os.environ.get('VERIF_H_AS_N'):
         kind = 'N'      # (survey switch: every aiohttp history on tornado)
     if CURRENT['rec'] is not None and kind in HTTPB:
